@@ -24,6 +24,7 @@ func (cx *Ctx) newUnit(name string) *Unit {
 		callsInlined: map[string]bool{}, callsContract: map[string]bool{}, callsTrusted: map[string]bool{}, callsHavoc: map[string]bool{}, callsNoEffect: map[string]bool{}}
 	u.heapPtr = map[string]string{}
 	u.freshRefs = map[string]bool{}
+	u.ghostTy = map[string]types.Type{}
 	u.closureSeen = map[string]bool{}
 	u.dryRows, u.dryWhole, u.dryFresh = map[string]map[string]bool{}, map[string]bool{}, map[string]bool{}
 	u.regHeap("$alloc", "Int")
@@ -150,8 +151,12 @@ func (cx *Ctx) buildFuncUnitOnce(fn *ssa.Function, fc *FuncContract, blacklist m
 	fr := u.newFrame(fn, nil)
 	fr.top = true
 	fr.fc = fc
-	for _, p := range fn.Params {
-		v := fr.havocParam(st, p.Type(), p.Name())
+	for pi, p := range fn.Params {
+		pname := p.Name()
+		if pname == "_" || pname == "" {
+			pname = fmt.Sprintf("_p%d", pi)
+		}
+		v := fr.havocParam(st, p.Type(), pname)
 		fr.vals[p] = v
 		if v.T != "" {
 			u.inputs = append(u.inputs, ModelVar{Name: p.Name(), Term: v.T, Ty: p.Type()})
